@@ -58,6 +58,21 @@ func (t *Collection) markReclaimable(n *node, reclaimMark *node) {
 	n.next = reclaimMark
 }
 
+// Marks every cached, not yet marked node of a tree as reclaimable.
+// Assumes the caller holds the Collection.rootLock.
+func markAllReclaimableUnlocked(nloc *nodeLoc, reclaimMark *node) {
+	if nloc.isEmpty() {
+		return
+	}
+	n := nloc.Node()
+	if n == nil || n.next != nil {
+		return
+	}
+	n.next = reclaimMark
+	markAllReclaimableUnlocked(&n.left, reclaimMark)
+	markAllReclaimableUnlocked(&n.right, reclaimMark)
+}
+
 func (t *Collection) reclaimMarkUpdate(nloc *nodeLoc,
 	oldReclaimMark, newReclaimMark *node) *node {
 	if nloc.isEmpty() {
@@ -223,6 +238,7 @@ func (t *Collection) mkRootNodeLoc(root *nodeLoc) *rootNodeLoc {
 	rnl.next = nil
 	rnl.chainedCollection = nil
 	rnl.chainedRootNodeLoc = nil
+	rnl.superseded = false
 	for i := 0; i < len(rnl.reclaimLater); i++ {
 		rnl.reclaimLater[i] = nil
 	}
